@@ -104,10 +104,10 @@ Fixpoint count_call (reg : Z -> bool) (evs : list pev) (f : Z) : Z :=
    after it.  `wrap` is that glue; the windowed profiler only sees events while the
    count is positive. *)
 Inductive wev := WE (e : pev) | WEnable | WDisable.
-Definition wrap (reg : Z -> bool) (evs : list pev) : list wev :=
+Definition wrap (dec : Z -> bool) (evs : list pev) : list wev :=
   flat_map (fun e => match e with
-                     | PCall f => if reg f then [WEnable; WE e] else [WE e]
-                     | PRet f => if reg f then [WE e; WDisable] else [WE e]
+                     | PCall f => if dec f then [WEnable; WE e] else [WE e]
+                     | PRet f => if dec f then [WE e; WDisable] else [WE e]
                      | PLine _ _ => [WE e]
                      end) evs.
 Definition wstep (reg : Z -> bool) (s : nat * pst) (w : wev) : nat * pst :=
@@ -117,6 +117,22 @@ Definition wstep (reg : Z -> bool) (s : nat * pst) (w : wev) : nat * pst :=
   | WE e => match fst s with O => s | S _ => (fst s, prof_step reg (snd s) e) end
   end.
 Definition wprof_run (reg : Z -> bool) (s : nat * pst) (ws : list wev) : nat * pst := fold_left (wstep reg) ws s.
+(* the events that happen inside a window (the profiled sections): with `kernprof -b`
+   cProfile is the profiler, it records every function while it is on, and it is on
+   only inside the decorated functions' windows - what runs before the first / between
+   / after the last profiled section is by design not part of the data *)
+Fixpoint windowed_from (dec : Z -> bool) (depth : nat) (evs : list pev) : list pev :=
+  match evs with
+  | [] => []
+  | PCall f :: t => if dec f then PCall f :: windowed_from dec (S depth) t
+                    else match depth with O => windowed_from dec depth t | S _ => PCall f :: windowed_from dec depth t end
+  | PRet f :: t => match depth with
+                   | O => windowed_from dec depth t
+                   | S d' => PRet f :: windowed_from dec (if dec f then d' else depth) t
+                   end
+  | PLine f l :: t => match depth with O => windowed_from dec depth t | S _ => PLine f l :: windowed_from dec depth t end
+  end.
+Definition windowed_events (dec : Z -> bool) (evs : list pev) : list pev := windowed_from dec 0 evs.
 (* registered activations on the stack *)
 Definition nreg (reg : Z -> bool) (s : list Z) : nat := length (filter reg s).
 
@@ -358,7 +374,8 @@ Definition prefix_unwind_ok (trig : Z) (full ex : list pev) (k : kind) (m : Z) :
    interrupted, ex = the oracle's stream of the interrupted run, m = the length of
    their common prefix after strip_lines (m < 0: the program has finally blocks, whose lines run during
    the unwinding, so only well-nestedness and closedness are checked); cprofile selects which counter the written file holds. *)
-Definition kern_case_ok (trig : Z) (full ex : list pev) (m : Z) (kd : Z) (outc : Z) (tick : Z) (regl : list Z) (ctx cprofile : bool)
+Definition kern_case_ok (trig : Z) (full ex : list pev) (m : Z) (kd : Z) (outc : Z) (tick : Z) (regl decl : list Z)
+           (ctx cprofile windowed : bool)
            (impl_hits : list (Z * Z * Z)) (impl_calls : list (Z * Z)) (impl_rc : Z) (impl_dumps : Z)
   : bool * bool * bool :=
   let k := match kd with 0 => KReturn | 1 => KSysExit | 2 => KKbdInt | _ => KExc end in
@@ -369,13 +386,20 @@ Definition kern_case_ok (trig : Z) (full ex : list pev) (m : Z) (kd : Z) (outc :
   let snap := match last_dump tr with Some (_, s) => s | None => pst0 end in
   let cmp_dumps := if tick <? 0 then impl_dumps else impl_dumps + 1 in   (* + the periodic dump *)
   ((* model = implementation *)
-   (if cprofile then calls_agree (p_calls snap) ex impl_calls else hits_agree (p_hits snap) ex impl_hits)
+   (if cprofile
+    then calls_agree (if windowed   (* -b: cProfile inside the decorated functions' windows only *)
+                      then p_calls (snd (wprof_run reg (0%nat, pst0) (wrap (reg_of decl) ex)))
+                      else p_calls snap) ex impl_calls
+    else hits_agree (p_hits snap) ex impl_hits)
    && (kern_exit ctx k oc =? impl_rc) && (count_eff is_dump tr =? cmp_dumps),
    (* the environment assumption: the interrupted run is the prefix plus unwinding *)
    prefix_unwind_ok trig full ex k m,
    (* the property on the implementation's own output: one complete file holding
       exactly the counts of what executed *)
-   (if cprofile then calls_are_counts reg ex impl_calls else hits_are_counts reg ex impl_hits)
+   (if cprofile
+    then forallb (fun f => count_call reg (if windowed then windowed_events (reg_of decl) ex else ex) f =? lookup1 f impl_calls)
+                 (call_keys ex ++ map fst impl_calls)
+    else hits_are_counts reg ex impl_hits)
    && (impl_dumps =? 1)).
 
 Definition explicit_case_ok (trig : Z) (full ex : list pev) (m : Z) (kd : Z) (outc : Z) (regl : list Z)
